@@ -131,7 +131,7 @@ SE2TangentBase<_Derived>::exp(OptJacobianRef J_m_t) const
   Scalar A,  // sin_theta_by_theta
          B;  // one_minus_cos_theta_by_theta
 
-  if (theta_sq < Constants<Scalar>::eps)
+  if (theta_sq * theta_sq < Constants<Scalar>::eps)
   {
     // Taylor approximation
     A = Scalar(1) - Scalar(1. / 6.) * theta_sq;
@@ -153,7 +153,7 @@ SE2TangentBase<_Derived>::exp(OptJacobianRef J_m_t) const
     (*J_m_t)(1,0) = -B;
     (*J_m_t)(1,1) =  A;
 
-    if (theta_sq < Constants<Scalar>::eps)
+    if (theta_sq * theta_sq < Constants<Scalar>::eps)
     {
       (*J_m_t)(0,2) = -y() / Scalar(2) + theta * x() / Scalar(6);
       (*J_m_t)(1,2) =  x() / Scalar(2) + theta * y() / Scalar(6);
@@ -232,25 +232,23 @@ SE2TangentBase<_Derived>::rjacinv() const
   const Scalar sin_theta = sin(theta);
   const Scalar theta_sq = theta * theta;
 
-  Scalar A,  // theta_sin_theta
-         B;  // theta_cos_theta
-
-  A = theta*sin_theta;
-  B = theta*cos_theta;
+  const Scalar A = theta*sin_theta;
 
   Jacobian Jrinv;
 
   Jrinv(0,1) = -theta*Scalar(0.5);
   Jrinv(1,0) = -Jrinv(0,1);
 
-  if (theta_sq > Constants<Scalar>::eps)
+  if (theta_sq * theta_sq > Constants<Scalar>::eps)
   {
     Jrinv(0,0) = -A/(Scalar(2)*cos_theta-Scalar(2));
     Jrinv(1,1) =  Jrinv(0,0);
 
-    Scalar den = Scalar(2)*theta*(cos_theta-Scalar(1));
-    Jrinv(0,2) = (A*x() + B*y() - theta*y() + Scalar(2)*x()*cos_theta - Scalar(2)*x()) / den;
-    Jrinv(1,2) = (-B*x() + A*y() + theta*x() + Scalar(2)*y()*cos_theta - Scalar(2)*y()) / den;
+    // (A + 2cos - 2) / (2 theta (cos - 1)) = 1/theta - sin / (2 (1 - cos));
+    // the remaining terms of the third column reduce to +-x/2, +-y/2 exactly.
+    const Scalar C = Scalar(1)/theta - sin_theta/(Scalar(2)*(Scalar(1)-cos_theta));
+    Jrinv(0,2) =  y()/Scalar(2) + C*x();
+    Jrinv(1,2) = -x()/Scalar(2) + C*y();
   }
   else
   {
@@ -283,7 +281,7 @@ SE2TangentBase<_Derived>::ljac() const
   Scalar A,  // sin_theta_by_theta
          B;  // one_minus_cos_theta_by_theta
 
-  if (theta_sq < Constants<Scalar>::eps)
+  if (theta_sq * theta_sq < Constants<Scalar>::eps)
   {
     // Taylor approximation
     A = Scalar(1) - Scalar(1. / 6.) * theta_sq;
@@ -302,7 +300,7 @@ SE2TangentBase<_Derived>::ljac() const
   Jl(1,0) =  B;
   Jl(1,1) =  A;
 
-  if (theta_sq < Constants<Scalar>::eps)
+  if (theta_sq * theta_sq < Constants<Scalar>::eps)
   {
     Jl(0,2) =  y() / Scalar(2) + theta * x() / Scalar(6);
     Jl(1,2) = -x() / Scalar(2) + theta * y() / Scalar(6);
@@ -329,25 +327,22 @@ SE2TangentBase<_Derived>::ljacinv() const
   const Scalar sin_theta = sin(theta);
   const Scalar theta_sq = theta * theta;
 
-  Scalar A,  // theta_sin_theta
-         B;  // theta_cos_theta
-
-  A = theta*sin_theta;
-  B = theta*cos_theta;
+  const Scalar A = theta*sin_theta;
 
   Jacobian Jlinv;
 
   Jlinv(0,1) =  theta*Scalar(0.5);
   Jlinv(1,0) = -Jlinv(0,1);
 
-  if (theta_sq > Constants<Scalar>::eps)
+  if (theta_sq * theta_sq > Constants<Scalar>::eps)
   {
     Jlinv(0,0) = -A/(Scalar(2)*cos_theta-Scalar(2));
     Jlinv(1,1) =  Jlinv(0,0);
 
-    Scalar den = Scalar(2)*theta*(cos_theta-Scalar(1));
-    Jlinv(0,2) = (A*x() - B*y() + theta*y() + Scalar(2)*x()*cos_theta - Scalar(2)*x()) / den;
-    Jlinv(1,2) = (B*x() + A*y() - theta*x() + Scalar(2)*y()*cos_theta - Scalar(2)*y()) / den;
+    // see rjacinv()
+    const Scalar C = Scalar(1)/theta - sin_theta/(Scalar(2)*(Scalar(1)-cos_theta));
+    Jlinv(0,2) = -y()/Scalar(2) + C*x();
+    Jlinv(1,2) =  x()/Scalar(2) + C*y();
   }
   else
   {
